@@ -1451,8 +1451,15 @@ hdf_read_attrs(XDR *xdrs, NC *handle, int32 vg)
                     HGOTO_FAIL(NULL);
 
                 if (type == NC_CHAR) {
-                    if ((attr_size = VFfieldorder(vs, 0)) == FAIL)
+                    /* DFNT_CHAR attributes are written as one record of
+                       order "count", DFNT_UCHAR ones as "count" records of
+                       order 1 (hdf_write_attr): records times order is the
+                       number of characters either way */
+                    int32 order;
+
+                    if ((order = VFfieldorder(vs, 0)) == FAIL)
                         HGOTO_FAIL(NULL);
+                    attr_size *= order;
 
                     ((char *)values)[attr_size] = '\0';
                 }
